@@ -1,9 +1,9 @@
 SPECIFICATION Spec
 CONSTANTS
   Atomic = FALSE
-  Readers = 2
+  Readers = 0
   Lookups = 1
-  NegCache = FALSE
+  NegCache = TRUE
   CachedView = FALSE
-INVARIANTS InvPackSeesPool InvLookupKnows
+INVARIANT InvLookupKnows
 CHECK_DEADLOCK FALSE
